@@ -309,6 +309,12 @@ def data_cases(ctx):
             with pm.Model():
                 offs = [xu.with_unit(pm.Normal(f"dv0_{i}", 0, 5), u.km / u.s) for i in range(1, noff + 1)]
                 priors[noff] = JokerPrior.default(P_min=1 * u.day, P_max=100 * u.day, sigma_K0=30 * u.km / u.s, sigma_v=50 * u.km / u.s, v0_offsets=offs)
+                # the caller goes on using its own list: the prior that was validated keeps the offsets it was validated with
+                offs.append(xu.with_unit(pm.Normal(f"dv0_{noff + 1}", 0, 5), u.km / u.s))
+        names_now = [nm for nm in priors[noff].par_names if nm.startswith("dv0_")]
+        if priors[noff].n_offsets != noff or len(names_now) != noff:
+            ctx.fail("predicate", "C18:data", f"after the caller appended to its own list of offset variables, the prior validated with {noff} offsets "
+                     f"reports n_offsets={priors[noff].n_offsets} (offset names {names_now})", case=dict(family="data", noff=noff, aliased=True))
     shapes = []
     shapes.append(("Single (SrcRV false)", lambda: mk(0)))
     shapes.append(("Single (SrcRV true)", lambda: cov))
